@@ -23,7 +23,9 @@ RULE = ('histories over the alphabet {add_variable, attribute set, item set, (na
         'float/int/bool/str, on VectorContainer, BaseModel and BaseLinker: exhaustive for length <= 2 over a representative operand '
         'set, random up to length 12. non-trivial = distinct history (operation, operand, target sequence) of length >= 1')
 ASSUMPTIONS = ['"dtype it was created with": dtype of the series right after add_variable / construction',
-               'a failed assignment may raise any exception class; only "raises and leaves every series unchanged" is asserted']
+               'a failed assignment may raise any exception class; only "raises and leaves every series unchanged" is asserted',
+               'a failing *value conversion* (a NumPy array of text assigned to a numeric variable) is not one of the "cannot fit" categories of the statement '
+               '(wrong length or shape, unknown or duplicate name): NumPy casts such an array element by element and may have stored a prefix before raising - counted, not asserted']
 ANCHORS = [('fsic/core/containers.py', 'VectorContainer.add_variable'), ('fsic/core/containers.py', 'VectorContainer.__setattr__'),
            ('fsic/core/containers.py', 'VectorContainer.__setitem__'), ('fsic/core/containers.py', 'VectorContainer.replace_values'),
            ('fsic/core/containers.py', 'VectorContainer.add_attribute'), ('fsic/core/interfaces.py', 'ModelInterface.add_variable'),
@@ -171,6 +173,8 @@ def operands(n):
         ('array-n', lambda: np.arange(n, dtype=float)), ('array-int-n', lambda: np.arange(n)), ('array-n+1', lambda: np.ones(n + 1)),
         ('array-nx1', lambda: np.ones((n, 1))), ('array-1xn', lambda: np.ones((1, n))), ('array-nxn', lambda: np.ones((n, n))),
         ('array-0d', lambda: np.array(7.0)), ('none', lambda: None),
+        ('array-n-int64', lambda: np.arange(n, dtype=np.int64)), ('array-n-bool', lambda: np.arange(n) % 2 == 0), ('array-n-str', lambda: np.array(['s'] * n)),
+        ('own-series', lambda: None), ('array-n-readonly', lambda: np.broadcast_to(np.float64(3.0), (n,))),
     ]
 
 
@@ -241,8 +245,18 @@ def step(ctx, c, twin, dtypes, hist, kind, n, span, op, optag, opval_factory, ta
     before = snap(c)
     strict_now = bool(c.strict)
     outcome = 'ok'
+    _factory = opval_factory
+
+    def opval_factory(obj=None):   # noqa: F811 - the operand for `obj` (the object under test by default)
+        if optag == 'own-series':
+            # the live series of another variable of the same object, passed as the value
+            o = c if obj is None else obj
+            others = [k for k in o.__dict__['index'] if k != target]
+            return getattr(o, others[0]) if others else np.arange(n, dtype=float)
+        return _factory()
+    operand = opval_factory()
     try:
-        apply(c, op, optag, opval_factory(), target, n, span, extra)
+        apply(c, op, optag, operand, target, n, span, extra)
         if op == 'add':
             dtypes[target] = c.__dict__['_' + target].dtype
     except InvariantBroken as e:
@@ -253,6 +267,31 @@ def step(ctx, c, twin, dtypes, hist, kind, n, span, op, optag, opval_factory, ta
         outcome = type(e).__name__
         msg = str(e)
     hist.append(desc + [outcome])
+    if outcome == 'ok' and op in ('add', 'attr', 'item', 'replace') and isinstance(operand, np.ndarray) and operand.size and target in c.__dict__['index']:
+        # the stored series is the object's own: what the caller later does to the array it passed in does not reach it,
+        # and writing to the variable does not reach the array (or the other variable) it was assigned from
+        ctx.count('aliasing_probes')
+        probe = snap(c)
+        if optag != 'own-series' and operand.flags.writeable:
+            operand.flat[0] = (not operand.flat[0]) if operand.dtype.kind == 'b' else (operand.flat[0] + 1 if operand.dtype.kind in 'fiu' else 'Q')
+            if not series_same(probe, snap(c)):
+                ctx.violation('series-aliases-operand', f'{kind}: after {desc}, changing the caller\'s array in place changed the stored series', {'kind': kind, 'n': n, 'history': hist})
+                return False
+        image = np.array(operand, copy=True)
+        stored = c.__dict__['_' + target]
+        orig = stored[0].copy() if hasattr(stored[0], 'copy') else stored[0]
+        try:
+            c[target, span[0]] = (not stored[0]) if stored.dtype.kind == 'b' else (stored[0] + 1 if stored.dtype.kind in 'fiu' else 'Q')
+        except Exception:
+            pass
+        aliased = repr(np.asarray(operand).tolist()) != repr(image.tolist())
+        try:
+            c.__dict__['_' + target][0] = orig      # undo the probe's write
+        except Exception:
+            pass
+        if aliased:
+            ctx.violation('series-aliases-operand', f'{kind}: after {desc}, a label write to {target!r} changed the array it was assigned from', {'kind': kind, 'n': n, 'history': hist})
+            return False
     ctx.count('operations_applied')
     ctx.seen('op_outcomes', f'{op}:{outcome}')
     case = {'kind': kind, 'n': n, 'history': hist}
@@ -263,7 +302,10 @@ def step(ctx, c, twin, dtypes, hist, kind, n, span, op, optag, opval_factory, ta
         if outcome == 'ok' or after['attrs'] != before['attrs'] or after['keys'] != before['keys'] or not series_same(before, after):
             ctx.violation('unknown-name-accepted', f'{kind}: {desc} for a name that is not a variable -> {outcome}; attributes {before["attrs"]} -> {after["attrs"]}', case)
             return False
-    if outcome != 'ok' and op in ('add', 'attr', 'item', 'label', 'lslice', 'replace'):
+    text_into_numeric = isinstance(operand, np.ndarray) and operand.dtype.kind in 'USO' and target in before['index'] and before['series'][target][1].kind in 'fiub'
+    if outcome != 'ok' and text_into_numeric:
+        ctx.count('failed_value_conversions_not_asserted')     # see ASSUMPTIONS: not a "cannot fit" category of the statement
+    elif outcome != 'ok' and op in ('add', 'attr', 'item', 'label', 'lslice', 'replace'):
         ctx.count('failed_assignments_checked')
         if not series_same(before, after):
             ctx.violation('failed-assignment-mutates', f'{kind}: {desc} raised {outcome} but changed the series', case)
@@ -286,7 +328,7 @@ def step(ctx, c, twin, dtypes, hist, kind, n, span, op, optag, opval_factory, ta
     if strict_now and op == 'newattr' and exists_before and twin is not None and (target in snap(twin)['attrs'] or target in snap(twin)['keys']):
         t_out = 'ok'
         try:
-            apply(twin, op, optag, opval_factory(), target, n, span, extra)
+            apply(twin, op, optag, opval_factory(twin), target, n, span, extra)
         except Exception as e:
             t_out = type(e).__name__
         ctx.count('strict_twin_comparisons')
@@ -305,7 +347,7 @@ def step(ctx, c, twin, dtypes, hist, kind, n, span, op, optag, opval_factory, ta
         tb = snap(twin)
         t_out = 'ok'
         try:
-            apply(twin, op if op != 'strict' else 'noop', optag, opval_factory(), target, n, span, extra)
+            apply(twin, op if op != 'strict' else 'noop', optag, opval_factory(twin), target, n, span, extra)
         except Exception as e:
             t_out = type(e).__name__
         if op not in ('newattr', 'strict', 'add_attr'):
